@@ -1297,4 +1297,21 @@ example : routeOf (M := Unit) true false none none = .error "assert" ∧ routeOf
 example : |chop (1 / 10 : ℚ) 4 (1 / 5) - 1 / 5| ≤ 1 / 10 * 4 ∧ chop (1 / 10 : ℚ) 4 (1 / 5) = 0 := by
   constructor <;> decide +kernel
 
+/-- an eigen-solution over ℚ(i) that passes all four self-checks exactly (hypothesis of `accepted_closure_defect` /
+    `accepted_jump_defect`): `Aₐ = (1 ± i) e`, `Lₐ = (1 ∓ i)/4 e` along the three axes, `k = √k = 1`. -/
+def exAccModes : Fin 6 → Mode (Cx ℚ) := fun a =>
+  ⟨if a.val % 2 = 0 then Cx.I else -Cx.I,
+   fun i => if i.val = a.val / 2 then (if a.val % 2 = 0 then ⟨1, 1⟩ else ⟨1, -1⟩) else 0,
+   fun i => if i.val = a.val / 2 then (if a.val % 2 = 0 then ⟨1 / 4, -1 / 4⟩ else ⟨1 / 4, 1 / 4⟩) else 0⟩
+example : strohChecksOk (1 / 100000000 : ℚ) (1 / 100000) 1 exAccModes (fun _ => 1) (fun _ => 1) = true := by decide +kernel
+example : ∀ a, kOf (exAccModes a) = 1 := by decide +kernel
+/-- an accepted Miller-route call (hypotheses of `baseSolve_miller_frame`): plane normal `y`, line `z`, `m = 'x'`, `n = 'y'`. -/
+def exMillerIn : BaseIn ℚ :=
+  { exBaseIn with ξ := true, hkl := true, axes := none, mStr := true, nStr := true, cart := false,
+                  m := fun i => if i = 0 then 1 else 0, n := fun i => if i = 1 then 1 else 0,
+                  nAxis := fun i => if i = 1 then 1 else 0, ξAxis := fun i => if i = 2 then 1 else 0 }
+example : (match baseSolve exMillerIn with | .ok out => out.T 0 0 == 1 && out.T 1 1 == 1 && out.b 0 == 1 | .error _ => false) = true
+    ∧ dot exMillerIn.nAxis exMillerIn.nAxis = 1 ∧ dot exMillerIn.ξAxis exMillerIn.ξAxis = 1
+    ∧ dot exMillerIn.nAxis exMillerIn.ξAxis = 0 := by decide +kernel
+
 end Atomman.C12
